@@ -238,23 +238,24 @@ theorem rowSeq_snoc (ord row n : Nat) : rowSeq ord row (n + 1) = rowSeq ord row 
     rw [rowSeq, ih (row + 1), rowSeq]
     simp; omega
 
-theorem scanRows_nojump (ord : Nat) : ∀ (fxs : List Fx) (row : Nat) (st : ScanSt),
+theorem scanRows_nojump_app (ord : Nat) (rest : List Fx) : ∀ (fxs : List Fx) (row : Nat) (st : ScanSt),
     (∀ fx ∈ fxs, fx.isJump = false ∧ fx.WF) → (∀ r, row ≤ r → cntAt st.cnt ord r = 0) → 20 ≤ st.bpm →
     ord < st.cnt.length → row + fxs.length ≤ (st.cnt.getD ord []).length →
-    ∃ st', scanRows ord fxs row st = .done st' none ∧ RowsDone ord row fxs st st' := by
+    ∃ st', scanRows ord (fxs ++ rest) row st = scanRows ord rest (row + fxs.length) st' ∧
+      RowsDone ord row fxs st st' := by
   intro fxs
   induction fxs with
   | nil =>
     intro row st _ _ _ _ _
-    refine ⟨st, by simp [scanRows], ?_⟩
+    refine ⟨st, by simp, ?_⟩
     constructor <;> simp [rowsTime, rowsSpeed, rowsBpm, rowSeq]
     intro r h1 h2; omega
-  | cons fx rest ih =>
+  | cons fx tl ih =>
     intro row st hfx hfresh hb hlen hrl
     rw [List.length_cons] at hrl
     have hfx0 := hfx fx (by simp)
     have hf0 : cntAt st.cnt ord row = 0 := hfresh row (Nat.le_refl _)
-    rw [scanRows_cons_fresh ord fx rest row st hb hf0 hfx0.1]
+    rw [List.cons_append, scanRows_cons_fresh ord fx (tl ++ rest) row st hb hf0 hfx0.1]
     obtain ⟨hrs, hsp, hbp⟩ := visitStep_eq_scanStep ord row fx st
     have hsp' : (visitStep ord row fx st).speed = fxSpeed fx st.speed := by rw [hsp, scanStep_speed]
     have hbp' : (visitStep ord row fx st).bpm = fxBpm fx st.bpm := by rw [hbp, scanStep_bpm _ _ hfx0.2]
@@ -262,7 +263,7 @@ theorem scanRows_nojump (ord : Nat) : ∀ (fxs : List Fx) (row : Nat) (st : Scan
       rw [hrs, scanStep_rowStart _ _ hfx0.2]
     have hlen' : ord < (visitStep ord row fx st).cnt.length := by
       rw [visitStep_cnt, cntInc_length]; exact hlen
-    have hrl' : row + 1 + rest.length ≤ ((visitStep ord row fx st).cnt.getD ord []).length := by
+    have hrl' : row + 1 + tl.length ≤ ((visitStep ord row fx st).cnt.getD ord []).length := by
       rw [visitStep_cnt, cntInc_row_length]; omega
     have hfresh' : ∀ r, row + 1 ≤ r → cntAt (visitStep ord row fx st).cnt ord r = 0 := by
       intro r hr
@@ -271,7 +272,8 @@ theorem scanRows_nojump (ord : Nat) : ∀ (fxs : List Fx) (row : Nat) (st : Scan
     have hb' : 20 ≤ (visitStep ord row fx st).bpm := by rw [hbp']; exact fxBpm_ge _ _ hb
     obtain ⟨st', he, hd⟩ := ih (row + 1) (visitStep ord row fx st)
       (fun f hf => hfx f (by simp [hf])) hfresh' hb' hlen' hrl'
-    refine ⟨st', he, ?_⟩
+    have hidx : row + 1 + tl.length = row + (fx :: tl).length := by rw [List.length_cons]; omega
+    refine ⟨st', by rw [he, hidx], ?_⟩
     have hrowlt : row < (st.cnt.getD ord []).length := by omega
     constructor
     · rw [hd.rowStart, hrs', hsp', hbp', rowsTime]; omega
@@ -295,7 +297,7 @@ theorem scanRows_nojump (ord : Nat) : ∀ (fxs : List Fx) (row : Nat) (st : Scan
     · rw [hd.trace, visitStep_trace]
       simp [rowSeq]
     · intro _
-      by_cases hr : rest = []
+      by_cases hr : tl = []
       · subst hr
         rw [hd.same rfl]
         exact ⟨visitStep_anyValid .., visitStep_osv ..⟩
@@ -304,6 +306,13 @@ theorem scanRows_nojump (ord : Nat) : ∀ (fxs : List Fx) (row : Nat) (st : Scan
 
 
 
+
+theorem scanRows_nojump (ord : Nat) (fxs : List Fx) (row : Nat) (st : ScanSt)
+    (h1 : ∀ fx ∈ fxs, fx.isJump = false ∧ fx.WF) (h2 : ∀ r, row ≤ r → cntAt st.cnt ord r = 0) (h3 : 20 ≤ st.bpm)
+    (h4 : ord < st.cnt.length) (h5 : row + fxs.length ≤ (st.cnt.getD ord []).length) :
+    ∃ st', scanRows ord fxs row st = .done st' none ∧ RowsDone ord row fxs st st' := by
+  obtain ⟨st', he, hd⟩ := scanRows_nojump_app ord [] fxs row st h1 h2 h3 h4 h5
+  exact ⟨st', by simpa [scanRows] using he, hd⟩
 
 /-! ## the player, frame by frame -/
 
@@ -378,6 +387,298 @@ theorem runN_add (e : PlayEnv) : ∀ (a : Nat) (s : PlaySt) (F1 : List PlaySt) (
         have := ih r2 r.1 r.2 b F2 s2 (by rw [hr]) (by rw [h1.2]; exact h2)
         rw [this]
         simp [← h1.1]
+
+
+
+
+/-- Σ frame_time of a list of rendered frames -/
+def ticks (F : List PlaySt) : Nat := (F.map fun s => tick s.bpm).sum
+
+/-- `k` ticks later inside the same row -/
+def later (p : PlaySt) (k : Nat) : PlaySt :=
+  { p with frame := p.frame + k, time := p.time + k * tick p.bpm, ctime := p.ctime + k * tick p.bpm }
+
+theorem later_zero (p : PlaySt) : later p 0 = p := by
+  cases p; simp [later]
+
+theorem later_later (p : PlaySt) (a b : Nat) : later (later p a) b = later p (a + b) := by
+  cases p
+  simp only [later, PlaySt.mk.injEq, true_and]
+  refine ⟨by omega, ?_, ?_⟩ <;> (rw [Nat.add_mul]; omega)
+
+/-- frames in the middle of a row: nothing happens but the clock -/
+theorem runN_mid (e : PlayEnv) : ∀ (k : Nat) (p : PlaySt), 1 ≤ p.frame → p.loopCount = 0 →
+    p.frame + k < p.speed * (1 + p.delay) →
+    ∃ F, e.runN k p = some (F, later p k) ∧ rowTrace F = [] ∧ ticks F = k * tick p.bpm ∧ F.length = k := by
+  intro k
+  induction k with
+  | zero => intro p _ _ _; exact ⟨[], by simp [PlayEnv.runN, later_zero], by simp [rowTrace], by simp [ticks], rfl⟩
+  | succ k ih =>
+    intro p hf hl hk
+    have hf0 : ¬ p.frame = 0 := by omega
+    have hr : e.render p = { p with time := p.time + tick p.bpm, ctime := p.ctime + tick p.bpm } := by
+      simp [PlayEnv.render, hf0]
+    have hadv : e.advance (e.render p) = some (later p 1) := by
+      rw [hr]
+      simp only [PlayEnv.advance]
+      have : ¬ (p.frame + 1 ≥ p.speed * (1 + p.delay)) := by omega
+      simp [this, later]
+    obtain ⟨F, hrun, htr, htk, hlen⟩ := ih (later p 1) (by simp [later]) (by simp [later, hl])
+      (by simp [later]; omega)
+    refine ⟨e.render p :: F, ?_, ?_, ?_, ?_⟩
+    · simp only [PlayEnv.runN, PlayEnv.stepF]
+      have hlc : ¬ (e.render p).loopCount > 0 := by rw [hr]; simp [hl]
+      simp only [hlc, if_false, hadv, Option.map_some, hrun]
+      rw [later_later, Nat.add_comm 1 k]
+    · simp [rowTrace, hr, hf0] at htr ⊢
+      exact htr
+    · simp [ticks, hr] at htk ⊢
+      simp [later] at htk
+      rw [htk]; rw [Nat.add_mul]; omega
+    · simp [hlen]
+
+
+theorem runN_add' (e : PlayEnv) : ∀ (a : Nat) (s : PlaySt) (F1 : List PlaySt) (s1 : PlaySt) (b : Nat),
+    e.runN a s = some (F1, s1) → e.runN (a + b) s = (e.runN b s1).map fun r => (F1 ++ r.1, r.2) := by
+  intro a
+  induction a with
+  | zero =>
+    intro s F1 s1 b h1; simp [PlayEnv.runN] at h1
+    obtain ⟨h1a, h1b⟩ := h1
+    subst h1a; subst h1b
+    rw [Nat.zero_add]
+    cases e.runN b s <;> simp
+  | succ a ih =>
+    intro s F1 s1 b h1
+    have e1 : a + 1 + b = (a + b) + 1 := by omega
+    rw [e1]
+    simp only [PlayEnv.runN] at h1 ⊢
+    cases hs : e.stepF s with
+    | none => simp [hs] at h1
+    | some pr =>
+      obtain ⟨r1, r2⟩ := pr
+      simp only [hs] at h1 ⊢
+      cases hr : e.runN a r2 with
+      | none => simp [hr] at h1
+      | some r =>
+        simp [hr] at h1
+        have := ih r2 r.1 r.2 b (by rw [hr])
+        rw [this, h1.2]
+        cases e.runN b s1 <;> simp [← h1.1]
+
+theorem rowTrace_nil : rowTrace [] = [] := rfl
+theorem rowTrace_cons (s : PlaySt) (F : List PlaySt) :
+    rowTrace (s :: F) = if s.frame = 0 then (s.ord, s.row) :: rowTrace F else rowTrace F := by
+  by_cases h : s.frame = 0 <;> simp [rowTrace, h]
+theorem rowTrace_append (F G : List PlaySt) : rowTrace (F ++ G) = rowTrace F ++ rowTrace G := by
+  simp [rowTrace]
+theorem ticks_nil : ticks [] = 0 := rfl
+theorem ticks_cons (s : PlaySt) (F : List PlaySt) : ticks (s :: F) = tick s.bpm + ticks F := by
+  simp [ticks]
+theorem ticks_append (F G : List PlaySt) : ticks (F ++ G) = ticks F + ticks G := by
+  simp [ticks]
+
+/-- `check_end_of_module` when it does not fire -/
+def endAfter (e : PlayEnv) (ord row : Nat) (E : Int) : Int :=
+  if ord = e.si.endOrd ∧ row = e.si.endRow then E - 1 else E
+
+/-- argument of `next_row` at the end of a row -/
+def rowEnd (e : PlayEnv) (p : PlaySt) (fx : Fx) : PlaySt :=
+  { p with frame := rowFrames fx p.speed, speed := fxSpeed fx p.speed, bpm := fxBpm fx p.bpm,
+           delay := fx.delayOf, endPoint := endAfter e p.ord p.row p.endPoint,
+           time := p.time + rowFrames fx p.speed * tick (fxBpm fx p.bpm),
+           ctime := p.ctime + rowFrames fx p.speed * tick (fxBpm fx p.bpm) }
+
+theorem render_first (e : PlayEnv) (p : PlaySt) (fx : Fx) (hfx : e.fxAt p.ord p.row = fx)
+    (hj : fx.isJump = false) (hfr : p.frame = 0) (hd : p.delay = 0)
+    (hne : ¬ (p.ord = e.si.endOrd ∧ p.row = e.si.endRow ∧ p.endPoint = 0)) :
+    e.render p = { p with speed := fxSpeed fx p.speed, bpm := fxBpm fx p.bpm, delay := fx.delayOf,
+                          endPoint := endAfter e p.ord p.row p.endPoint,
+                          time := p.time + tick (fxBpm fx p.bpm), ctime := p.ctime + tick (fxBpm fx p.bpm) } := by
+  have hce : e.checkEnd p = { p with endPoint := endAfter e p.ord p.row p.endPoint } := by
+    simp only [PlayEnv.checkEnd, endAfter]
+    by_cases h1 : p.ord = e.si.endOrd ∧ p.row = e.si.endRow
+    · have : ¬ p.endPoint = 0 := fun h => hne ⟨h1.1, h1.2, h⟩
+      simp [h1, this]
+    · simp [h1]
+  simp only [PlayEnv.render, hfr, if_true, PlayEnv.newRow, hce, hfx]
+  cases fx <;> simp [Fx.isJump] at hj <;> simp [readFx, fxSpeed, fxBpm, Fx.delayOf, hd]
+  split <;> simp [hd]
+
+theorem runN_row (e : PlayEnv) (p : PlaySt) (fx : Fx) (hfx : e.fxAt p.ord p.row = fx)
+    (hj : fx.isJump = false) (hw : fx.WF) (hfr : p.frame = 0) (hd : p.delay = 0) (hl : p.loopCount = 0)
+    (hs : 1 ≤ p.speed)
+    (hne : ¬ (p.ord = e.si.endOrd ∧ p.row = e.si.endRow ∧ p.endPoint = 0)) :
+    ∃ F, F.length = rowFrames fx p.speed ∧ rowTrace F = [(p.ord, p.row)] ∧
+      ticks F = rowFrames fx p.speed * tick (fxBpm fx p.bpm) ∧
+      e.runN (rowFrames fx p.speed) p = (e.nextRow (rowEnd e p fx)).map fun p' => (F, p') := by
+  have hr0 := render_first e p fx hfx hj hfr hd hne
+  have hN : 1 ≤ rowFrames fx p.speed := by
+    have := fxSpeed_pos fx p.speed hs hw
+    simp only [rowFrames]
+    exact Nat.mul_pos this (by omega)
+  have hNdef : fxSpeed fx p.speed * (1 + fx.delayOf) = rowFrames fx p.speed := rfl
+  have hre : rowEnd e p fx = { p with frame := rowFrames fx p.speed, speed := fxSpeed fx p.speed, bpm := fxBpm fx p.bpm, delay := fx.delayOf, endPoint := endAfter e p.ord p.row p.endPoint, time := p.time + rowFrames fx p.speed * tick (fxBpm fx p.bpm), ctime := p.ctime + rowFrames fx p.speed * tick (fxBpm fx p.bpm) } := rfl
+  generalize rowFrames fx p.speed = N at *
+  generalize fxBpm fx p.bpm = b' at *
+  generalize fxSpeed fx p.speed = s' at *
+  generalize fx.delayOf = d' at *
+  generalize endAfter e p.ord p.row p.endPoint = E' at *
+  have hlc0 : ¬ (e.render p).loopCount > 0 := by rw [hr0]; simp [hl]
+  by_cases h1 : N = 1
+  · subst h1
+    refine ⟨[e.render p], rfl, ?_, ?_, ?_⟩
+    · rw [rowTrace_cons, rowTrace_nil, hr0]; simp [hfr]
+    · rw [ticks_cons, ticks_nil, hr0]; simp
+    · simp only [PlayEnv.runN, PlayEnv.stepF, hlc0, if_false]
+      have hadv : e.advance (e.render p) = e.nextRow (rowEnd e p fx) := by
+        rw [hr0, hre]
+        simp only [PlayEnv.advance, hfr]
+        have hge : (0 + 1 ≥ s' * (1 + d')) := by omega
+        simp only [hge, if_true, Nat.one_mul]
+      rw [hadv]
+      cases e.nextRow (rowEnd e p fx) <;> simp
+  · -- N ≥ 2
+    obtain ⟨p1, hp1⟩ : ∃ p1 : PlaySt, p1 = { p with frame := 1, speed := s', bpm := b', delay := d', endPoint := E', time := p.time + tick b', ctime := p.ctime + tick b' } := ⟨_, rfl⟩
+    have hadv : e.advance (e.render p) = some p1 := by
+      rw [hr0, hp1]
+      simp only [PlayEnv.advance, hfr]
+      have hlt : ¬ (0 + 1 ≥ s' * (1 + d')) := by omega
+      simp only [hlt, if_false]
+    have hp1s : p1.speed * (1 + p1.delay) = N := by rw [hp1]; exact hNdef
+    have hp1f : p1.frame = 1 := by rw [hp1]
+    have hp1b : p1.bpm = b' := by rw [hp1]
+    obtain ⟨F', hrun, htr, htk, hlen⟩ := runN_mid e (N - 2) p1 (by omega) (by rw [hp1]; exact hl)
+      (by rw [hp1s, hp1f]; omega)
+    obtain ⟨q, hq⟩ : ∃ q : PlaySt, q = later p1 (N - 2) := ⟨_, rfl⟩
+    rw [← hq] at hrun
+    have hqe : q = { p with frame := 1 + (N - 2), speed := s', bpm := b', delay := d', endPoint := E', time := p.time + tick b' + (N - 2) * tick b', ctime := p.ctime + tick b' + (N - 2) * tick b' } := by
+      rw [hq, hp1]; rfl
+    have hqf : q.frame = N - 1 := by rw [hqe]; show 1 + (N - 2) = N - 1; omega
+    have hqb : q.bpm = b' := by rw [hqe]
+    have hmul : ∀ t : Nat, t + (N - 2) * t + t = N * t := by
+      intro t
+      have h2 : N = (N - 2) + 2 := by omega
+      conv => rhs; rw [h2, Nat.add_mul]
+      omega
+    have hrq : e.render q = { p with frame := 1 + (N - 2), speed := s', bpm := b', delay := d', endPoint := E', time := p.time + N * tick b', ctime := p.ctime + N * tick b' } := by
+      have hne0 : ¬ q.frame = 0 := by omega
+      simp only [PlayEnv.render, hne0, if_false]
+      rw [hqe]
+      simp only [PlaySt.mk.injEq, true_and]
+      have := hmul (tick b')
+      constructor <;> omega
+    have hlcq : ¬ (e.render q).loopCount > 0 := by rw [hrq]; simp [hl]
+    have hadvq : e.advance (e.render q) = e.nextRow (rowEnd e p fx) := by
+      rw [hrq, hre]
+      simp only [PlayEnv.advance]
+      have hge : 1 + (N - 2) + 1 ≥ s' * (1 + d') := by omega
+      simp only [hge, if_true]
+      congr 1
+      simp only [PlaySt.mk.injEq, true_and, and_true]
+      omega
+    refine ⟨e.render p :: (F' ++ [e.render q]), by simp [hlen]; omega, ?_, ?_, ?_⟩
+    · rw [rowTrace_cons, rowTrace_append, htr, rowTrace_cons, rowTrace_nil]
+      have h0 : (e.render p).frame = 0 := by rw [hr0]; exact hfr
+      have hq0 : ¬ (e.render q).frame = 0 := by rw [hrq]; show ¬ 1 + (N - 2) = 0; omega
+      simp only [h0, if_true, hq0, if_false, List.nil_append]
+      rw [hr0]
+    · rw [ticks_cons, ticks_append, htk, ticks_cons, ticks_nil]
+      have hb0 : (e.render p).bpm = b' := by rw [hr0]
+      have hbq : (e.render q).bpm = b' := by rw [hrq]
+      rw [hb0, hbq, hp1b, Nat.add_zero, ← Nat.add_assoc]
+      exact hmul _
+    · have hsplit : N = ((N - 2) + 1) + 1 := by omega
+      rw [hsplit, PlayEnv.runN]
+      simp only [PlayEnv.stepF, hlc0, if_false, hadv, Option.map_some]
+      have h2 := runN_add' e (N - 2) p1 F' q 1 hrun
+      rw [h2]
+      simp only [PlayEnv.runN, PlayEnv.stepF, hlcq, if_false, hadvq]
+      cases e.nextRow (rowEnd e p fx) <;> simp
+
+
+
+
+theorem getD_of_drop {α} (l : List α) (n : Nat) (a : α) (t : List α) (d : α) (h : l.drop n = a :: t) :
+    l.getD n d = a ∧ l.drop (n + 1) = t ∧ n < l.length := by
+  induction l generalizing n with
+  | nil => simp at h
+  | cons x xs ih =>
+    cases n with
+    | zero => simp at h; simp [h.1, h.2]
+    | succ n =>
+      simp at h
+      have := ih n h
+      refine ⟨by simpa using this.1, by simpa using this.2.1, ?_⟩
+      have := this.2.2
+      simp; omega
+
+/-- The player over a jump-free stretch of rows that does not contain the last row of the
+pattern nor the scan's end point. -/
+theorem runN_rows (e : PlayEnv) (ord : Nat) : ∀ (fxs : List Fx) (rest : List Fx) (row : Nat) (p : PlaySt),
+    (e.m.rowsOf (e.m.patOf ord)).drop row = fxs ++ rest → rest ≠ [] →
+    (∀ fx ∈ fxs, fx.isJump = false ∧ fx.WF) →
+    (ord = e.si.endOrd → ∀ r, row ≤ r → r < row + fxs.length → r ≠ e.si.endRow) →
+    p.ord = ord → p.row = row → p.frame = 0 → p.delay = 0 → p.pbreak = false → p.loopCount = 0 → 1 ≤ p.speed →
+    ∃ F p', e.runN F.length p = some (F, p') ∧ rowTrace F = rowSeq ord row fxs.length ∧
+      ticks F = rowsTime fxs p.speed p.bpm ∧
+      p'.ord = ord ∧ p'.row = row + fxs.length ∧ p'.frame = 0 ∧ p'.delay = 0 ∧ p'.pbreak = false ∧
+      p'.loopCount = 0 ∧ p'.speed = rowsSpeed fxs p.speed ∧ p'.bpm = rowsBpm fxs p.bpm ∧
+      p'.time = p.time + rowsTime fxs p.speed p.bpm ∧ p'.endPoint = p.endPoint := by
+  intro fxs
+  induction fxs with
+  | nil =>
+    intro rest row p _ _ _ _ ho hr hf hd hp hl hs
+    exact ⟨[], p, by simp [PlayEnv.runN], by simp [rowTrace, rowSeq], by simp [ticks, rowsTime],
+      ho, by simp [hr], hf, hd, hp, hl, by simp [rowsSpeed], by simp [rowsBpm], by simp [rowsTime], rfl⟩
+  | cons fx fxs ih =>
+    intro rest row p hdrop hrest hfx hend ho hr hf hd hp hl hs
+    have hfx0 := hfx fx (by simp)
+    obtain ⟨hget, hdrop', hlt⟩ := getD_of_drop _ row fx (fxs ++ rest) Fx.none (by simpa using hdrop)
+    have hfxat : e.fxAt p.ord p.row = fx := by rw [ho, hr]; exact hget
+    have hne : ¬ (p.ord = e.si.endOrd ∧ p.row = e.si.endRow ∧ p.endPoint = 0) := by
+      intro h
+      rw [ho, hr] at h
+      exact hend h.1 row (Nat.le_refl _) (by simp) h.2.1
+    obtain ⟨F1, hlen1, htr1, htk1, hrun1⟩ := runN_row e p fx hfxat hfx0.1 hfx0.2 hf hd hl hs hne
+    -- next_row inside the pattern
+    have hrowslen : row + 1 < (e.m.rowsOf (e.m.patOf ord)).length := by
+      have h1 : ((e.m.rowsOf (e.m.patOf ord)).drop (row + 1)).length = (fxs ++ rest).length := by rw [hdrop']
+      have h2 : 0 < rest.length := by cases rest with | nil => exact absurd rfl hrest | cons _ _ => simp
+      simp at h1; omega
+    obtain ⟨p2, hp2⟩ : ∃ p2 : PlaySt, p2 = { rowEnd e p fx with frame := 0, delay := 0, row := row + 1 } := ⟨_, rfl⟩
+    have hnr : e.nextRow (rowEnd e p fx) = some p2 := by
+      have hge : ¬ (row + 1 ≥ (e.m.rowsOf (e.m.patOf ord)).length) := by omega
+      simp only [PlayEnv.nextRow, rowEnd, hp, hr, ho, hge, if_false, Bool.false_eq_true, hp2]
+    rw [hnr] at hrun1
+    simp only [Option.map_some] at hrun1
+    have hea : endAfter e p.ord p.row p.endPoint = p.endPoint := by
+      simp only [endAfter]
+      have : ¬ (p.ord = e.si.endOrd ∧ p.row = e.si.endRow) := by
+        intro h; rw [ho, hr] at h
+        exact hend h.1 row (Nat.le_refl _) (by simp) h.2
+      simp [this]
+    have hs2 : 1 ≤ p2.speed := by rw [hp2]; exact fxSpeed_pos fx p.speed hs hfx0.2
+    obtain ⟨F2, p', hrun2, htr2, htk2, h1, h2, h3, h4, h5, h6, h7, h8, h9, h10⟩ := ih rest (row + 1) p2 hdrop' hrest
+      (fun f hf => hfx f (by simp [hf]))
+      (fun ho' r h1 h2 => hend ho' r (by omega) (by simp; omega))
+      (by rw [hp2]; exact ho) (by rw [hp2]) (by rw [hp2]) (by rw [hp2]) (by rw [hp2]; exact hp)
+      (by rw [hp2]; exact hl) hs2
+    have hp2s : p2.speed = fxSpeed fx p.speed := by rw [hp2]; rfl
+    have hp2b : p2.bpm = fxBpm fx p.bpm := by rw [hp2]; rfl
+    have hp2t : p2.time = p.time + rowFrames fx p.speed * tick (fxBpm fx p.bpm) := by rw [hp2]; rfl
+    have hp2e : p2.endPoint = p.endPoint := by rw [hp2]; exact hea
+    refine ⟨F1 ++ F2, p', ?_, ?_, ?_, h1, ?_, h3, h4, h5, h6, ?_, ?_, ?_, ?_⟩
+    · rw [List.length_append, hlen1]
+      have := runN_add e (rowFrames fx p.speed) p F1 p2 F2.length F2 p' hrun1 hrun2
+      exact this
+    · rw [rowTrace_append, htr1, htr2, ho, hr]; simp [rowSeq]
+    · rw [ticks_append, htk1, htk2, hp2s, hp2b, rowsTime]
+    · rw [h2]; simp; omega
+    · rw [h7, hp2s, rowsSpeed]
+    · rw [h8, hp2b, rowsBpm]
+    · rw [h9, hp2t, hp2s, hp2b, rowsTime]; omega
+    · rw [h10, hp2e]
 
 
 end Xmp.LinFlow
